@@ -46,7 +46,6 @@ use sierradb_cluster::write::execute::ExecuteTransaction;
 use sierradb_cluster::write::replicate::{PartitionReplicatorActor, PartitionReplicatorActorArgs, ReplicateWrite};
 use sierradb_cluster::{ClusterActor, ClusterArgs, ResetCluster};
 use smallvec::SmallVec;
-use tokio::task::JoinHandle;
 use uuid::Uuid;
 
 mod gen_cases;
@@ -104,7 +103,6 @@ struct Shared {
 
 struct Case {
     idx: usize,
-    line: String,
     pid: u16,
     limit: usize,
     n0x: u64,
@@ -124,7 +122,7 @@ fn parse_case(idx: usize, pid: u16, line: &str) -> Option<Case> {
     if limit == 0 || n0x == 0 || n0y == 0 || n0y > n0x || n0x > 40 { return None; }
     let ops: Vec<Vec<String>> = t[5..].iter().map(|o| o.split(',').map(|s| s.to_string()).collect()).collect();
     let restart = ops.iter().any(|o| o[0] == "xR");
-    Some(Case { idx, line: line.to_string(), pid, limit, n0x, n0y, ops, restart, txs: HashMap::new(), ids: HashMap::new() })
+    Some(Case { idx, pid, limit, n0x, n0y, ops, restart, txs: HashMap::new(), ids: HashMap::new() })
 }
 
 async fn read_log(db: &Database, pid: u16, ids: &HashMap<Uuid, u64>) -> Result<(String, u64), String> {
@@ -148,7 +146,7 @@ async fn read_log(db: &Database, pid: u16, ids: &HashMap<Uuid, u64>) -> Result<(
     Ok((if log.is_empty() { "-".into() } else { log.join(",") }, next))
 }
 
-type Pending = JoinHandle<String>;
+type Pending = std::pin::Pin<Box<dyn std::future::Future<Output = String> + Send>>;
 
 struct Run<'a> {
     sh: &'a Shared,
@@ -211,13 +209,13 @@ impl<'a> Run<'a> {
         if to_y {
             let rep = self.yrep.clone()?;
             match tokio::spawn(async move { rep.ask(msg).enqueue().await }).await {
-                Ok(Ok(p)) => Some(tokio::spawn(async move { fin(p.await) })),
+                Ok(Ok(p)) => Some(Box::pin(async move { fin(p.await) })),
                 _ => None,
             }
         } else {
             let cl = self.sh.cluster.clone();
             match tokio::spawn(async move { cl.ask(msg).enqueue().await }).await {
-                Ok(Ok(p)) => Some(tokio::spawn(async move {
+                Ok(Ok(p)) => Some(Box::pin(async move {
                     match p.await {
                         Ok(a) => format!("ok{}", a.first_partition_sequence),
                         Err(SendError::HandlerError(inner)) => fin::<ReplicateWrite>(Err(inner)),
@@ -237,23 +235,21 @@ impl<'a> Run<'a> {
         let msg = self.rw(t, 0, "-", to_y);
         if to_y && self.yrep.is_none() { return Ok(()); }
         let p = self.send_rw(msg, to_y).await.ok_or("barrier not delivered")?;
-        match tokio::time::timeout(Duration::from_secs(60), p).await {
-            Ok(Ok(s)) if s == "stale" => Ok(()),
-            Ok(Ok(s)) => Err(format!("barrier answered {s}")),
+        match tokio::time::timeout(Duration::from_secs(120), p).await {
+            Ok(s) if s == "stale" => Ok(()),
+            Ok(s) => Err(format!("barrier answered {s}")),
             _ => Err("barrier lost".into()),
         }
     }
 
-    async fn collect(&mut self, wait: bool) {
+    /// replies that have been sent are taken (the barrier before this call makes that deterministic: the actor
+    /// answers in order, so everything it will answer without further input is already in its reply channel)
+    async fn collect(&mut self, _last: bool) {
         let mut rest = Vec::new();
-        for (i, y, h) in std::mem::take(&mut self.pend) {
-            if h.is_finished() || wait {
-                match tokio::time::timeout(Duration::from_secs(30), h).await {
-                    Ok(Ok(s)) => self.toks[i] = Some(s),
-                    _ => self.toks[i] = Some("pend".into()),
-                }
-            } else {
-                rest.push((i, y, h));
+        for (i, y, mut h) in std::mem::take(&mut self.pend) {
+            match tokio::time::timeout(Duration::from_millis(1), h.as_mut()).await {
+                Ok(s) => self.toks[i] = Some(s),
+                Err(_) => rest.push((i, y, h)),
             }
         }
         self.pend = rest;
@@ -364,7 +360,7 @@ impl<'a> Run<'a> {
                 self.collect(false).await;
                 // replies of writes that were still buffered are gone with the actor
                 for (j, y, h) in std::mem::take(&mut self.pend) {
-                    if y { h.abort(); self.toks[j] = Some("pend".into()); } else { self.pend.push((j, y, h)); }
+                    if y { self.toks[j] = Some("pend".into()); } else { self.pend.push((j, y, h)); }
                 }
                 self.spawn_y().await;
                 self.toks[i] = Some("-".into());
@@ -391,6 +387,7 @@ async fn run_case(sh: &Shared, c: &mut Case) -> Result<String, String> {
     if err.is_none() { if let Err(e) = r.settle().await { err = Some(e); } }
     r.stop_y().await;
     r.collect(true).await;
+    for (i, _, _) in std::mem::take(&mut r.pend) { r.toks[i] = Some("pend".into()); }
     if let Some(e) = err { return Err(e); }
     Ok(r.toks.iter().map(|t| t.clone().unwrap_or_else(|| "?".into())).collect::<Vec<_>>().join(";"))
 }
@@ -464,7 +461,11 @@ async fn child_run(rf: u8, lines: Vec<String>) -> Result<Vec<(String, String)>, 
     let coord = cluster.clone().into_remote_ref().await;
     let confy = ConfirmationActor::new(dby.clone(), rf, (0..PARTS).collect()).await.map_err(|e| format!("confirmation actor: {e}"))?;
     let confy = Spawn::spawn(confy);
-    let sh = Arc::new(Shared { rf, dbx: dbx.clone(), dby: dby.clone(), cluster: cluster.clone(), coord, foreign: None, confy });
+    // a coordinator ref this node does not know (another peer id): only (de)serialisation can build one
+    let fid = kameo::actor::ActorId::new_with_peer_id(7, Keypair::generate_ed25519().public().to_peer_id());
+    let foreign = rmp_serde::to_vec(&(fid,)).ok().and_then(|b| rmp_serde::from_slice::<RemoteActorRef<ClusterActor>>(&b).ok());
+    if foreign.is_none() { return Err("cannot build a foreign coordinator ref".into()); }
+    let sh = Arc::new(Shared { rf, dbx: dbx.clone(), dby: dby.clone(), cluster: cluster.clone(), coord, foreign, confy });
 
     // phase 1: all cases without a restart run concurrently, each on its own partition
     let mut results: HashMap<usize, Result<String, String>> = HashMap::new();
@@ -475,7 +476,9 @@ async fn child_run(rf: u8, lines: Vec<String>) -> Result<Vec<(String, String)>, 
         let sh2 = sh.clone();
         handles.push(tokio::spawn(async move {
             let mut c = c;
+            let t0 = Instant::now();
             let r = match tokio::time::timeout(Duration::from_secs(240), run_case(&sh2, &mut c)).await { Ok(r) => r, Err(_) => Err("case timed out".into()) };
+            if std::env::var_os("C10_TIMING").is_some() { eprintln!("case {} took {:?} ({} ops)", c.idx, t0.elapsed(), c.ops.len()); }
             (c, r)
         }));
     }
